@@ -141,6 +141,7 @@ type world struct {
 	accepted                                        []*genTx         // previously admitted eth txs (for replays)
 	failedAcc                                       []*genTx         // previously admitted eth txs that failed afterwards (core error, block gas, VM error)
 	cosmosAcc                                       []*genTx         // previously accepted Cosmos txs
+	abortedAcc                                      []*genTx         // previously admitted eth txs whose execution, by the reference, is aborted by a panic (module accounts)
 	admitted                                        map[string]int64 // sha256(raw) of every admitted tx -> height
 	lastSeq                                         map[common.Address]uint64
 	maxGas                                          int64
@@ -150,6 +151,27 @@ type world struct {
 	kAlive                                          map[common.Address]bool // instances of rtK alive in the committed state
 	evmModule                                       common.Address
 	foreignOnly                                     []common.Address // code-less accounts (sequence 0) that hold other denominations and no EVM coins: not empty, must survive a touch
+	mods                                            []common.Address // addresses of the module accounts (app/modules.go maccPerms): the bank refuses to credit them
+	modName                                         map[common.Address]string
+	distr                                           common.Address // x/distribution's module account: receives the fee collector's balance at BeginBlock
+}
+
+// the module accounts of the application by name (written down here, not read from the application: the list of
+// addresses that must never receive coins from an Ethereum transaction is part of what is checked)
+var moduleAccountNames = []string{"evm", "fee_collector", "distribution", "gov", "mint", "bonded_tokens_pool", "not_bonded_tokens_pool", "cpc", "vauth", "transfer", "interchainaccounts"}
+
+func (w *world) isMod(a common.Address) bool { _, ok := w.modName[a]; return ok }
+
+// a module account as recipient / beneficiary: mostly the EVM module's own account and the fee collector
+func (w *world) pickMod(r *Rng) common.Address {
+	switch r.Intn(10) {
+	case 0, 1, 2, 3:
+		return w.evmModule
+	case 4, 5:
+		return feeCollector()
+	default:
+		return w.mods[r.Intn(len(w.mods))]
+	}
 }
 
 func (w *world) id(a common.Address) int64 {
@@ -183,6 +205,13 @@ func newWorld(t *testing.T) *world {
 	w.chainID = c.App.EvmKeeper.GetEip155ChainId(ctx).BigInt()
 	w.kHash = crypto.Keccak256Hash(rtK)
 	w.evmModule = common.BytesToAddress(authtypes.NewModuleAddress(evmtypes.ModuleName))
+	w.modName = map[common.Address]string{}
+	for _, n := range moduleAccountNames {
+		a := common.BytesToAddress(authtypes.NewModuleAddress(n))
+		w.mods = append(w.mods, a)
+		w.modName[a] = n
+	}
+	w.distr = common.BytesToAddress(authtypes.NewModuleAddress("distribution"))
 	// no inflation: supply then changes only through transactions
 	mp, err := c.App.MintKeeper.Params.Get(ctx)
 	require.NoError(t, err)
@@ -262,6 +291,12 @@ func newWorld(t *testing.T) *world {
 	}
 	w.core = append(w.core, w.poor.GetEthAddress(), w.codeWallet.GetEthAddress(), w.sink, w.reverter, w.invalid, w.logger, w.store, w.factory, feeCollector(), w.evmModule)
 	w.core = append(w.core, w.bens...)
+	for _, a := range w.mods {
+		if a != feeCollector() && a != w.evmModule {
+			w.id(a)
+			w.core = append(w.core, a)
+		}
+	}
 	for s := uint64(0); s < nSalts; s++ {
 		w.core = append(w.core, c2Address(w.factory, s))
 	}
@@ -310,7 +345,7 @@ func (w *world) pickBankRecipient(r *Rng, pending map[common.Address]uint64) com
 		return []common.Address{w.sink, w.store, w.factory, w.logger, w.reverter}[r.Intn(5)]
 	default:
 		if r.Chance(25) {
-			return feeCollector() // a blocked address: the bank refuses
+			return w.pickMod(r) // a blocked address: the bank refuses
 		}
 		return w.freshAddr(r)
 	}
@@ -319,7 +354,10 @@ func (w *world) pickBankRecipient(r *Rng, pending map[common.Address]uint64) com
 // between blocks: mint other denominations straight to addresses the coming block creates, destroys or touches
 func (w *world) prefund(r *Rng, gen []*genTx, count func(string)) {
 	var cand []common.Address
-	seen := map[common.Address]bool{feeCollector(): true, w.evmModule: true}
+	seen := map[common.Address]bool{}
+	for _, a := range w.mods { // the bank refuses to credit them
+		seen[a] = true
+	}
 	for _, g := range gen {
 		if !g.isEth {
 			continue
@@ -359,6 +397,9 @@ func (w *world) prefund(r *Rng, gen []*genTx, count func(string)) {
 		a := cand[r.Intn(len(cand))]
 		if len(targets) > 0 && r.Chance(60) {
 			a = targets[r.Intn(len(targets))]
+		}
+		if w.isMod(a) {
+			continue
 		}
 		for m := 1 + r.Intn(2); m > 0; m-- {
 			w.c.Fund(sdk.AccAddress(a.Bytes()), otherDenoms[r.Intn(len(otherDenoms))], big.NewInt(int64(1+r.Intn(5000))))
@@ -534,7 +575,9 @@ func (w *world) freshAddr(r *Rng) common.Address {
 
 // beneficiary of a self-destruct of target (self = the executing frame, resolved when the script runs)
 func (w *world) pickBenef(r *Rng, target, sender common.Address) (b common.Address, self bool) {
-	switch r.Intn(9) {
+	switch r.Intn(10) {
+	case 9: // a module account: crediting it with anything aborts the transaction; with nothing, it is only touched
+		return w.pickMod(r), false
 	case 0, 1:
 		return common.Address{}, true
 	case 2:
@@ -632,6 +675,12 @@ func (w *world) genScript(r *Rng, depth int, sender common.Address, unit *big.In
 			}
 			if len(w.foreignOnly) > 0 && r.Chance(15) { // a zero-value call to an account holding only other denominations
 				t, v = w.foreignOnly[r.Intn(len(w.foreignOnly))], big.NewInt(0)
+			}
+			if r.Chance(14) { // an inner CALL to a module account, with or without value
+				t, v = w.pickMod(r), val()
+				if r.Chance(40) {
+					v = big.NewInt(0)
+				}
 			}
 			s.ops = append(s.ops, sop{kind: sFund, target: t, value: v})
 		case 6:
@@ -758,13 +807,15 @@ func (w *world) genBlock(r *Rng, n int) []*genTx {
 		// replays first: of this very block, of earlier blocks (with priority to txs that failed after admission)
 		if !inTemplate && r.Chance(12) {
 			var pool []*genTx
-			switch r.Intn(5) {
+			switch r.Intn(6) {
 			case 0, 1:
 				pool = out
 			case 2:
 				pool = w.failedAcc
 			case 3:
 				pool = w.accepted
+			case 4:
+				pool = w.abortedAcc
 			default:
 				pool = w.cosmosAcc
 			}
@@ -962,6 +1013,12 @@ func (w *world) genBlock(r *Rng, n int) []*genTx {
 					value = big.NewInt(0)
 				}
 			}
+			if r.Chance(15) { // a module account as recipient of the transaction itself (value zero, affordable or not)
+				a = w.pickMod(r)
+				if r.Chance(45) {
+					value = big.NewInt(0) // only touched: aborted at commit when the module account is empty
+				}
+			}
 			to = &a
 		case kSink:
 			to = &w.sink
@@ -1157,6 +1214,20 @@ func (w *world) genBlock(r *Rng, n int) []*genTx {
 			}
 		}
 		out = append(out, g)
+		// a transaction that names a module account is now and then followed at once by its own replay: whatever became
+		// of its execution (aborted by a panic, executed with nothing to commit), the sequence moved and the replay must be refused
+		if mal == mNone && !inTemplate && i+1 < n && r.Chance(30) {
+			names := false
+			for _, a := range g.addrs {
+				names = names || w.isMod(a)
+			}
+			if names {
+				cp := *g
+				cp.Mal = malNames[mReplay]
+				out = append(out, &cp)
+				i++
+			}
+		}
 	}
 	return out
 }
@@ -1343,6 +1414,10 @@ func (w *world) observe(res *abci.ExecTxResult) *obsTx {
 		o.Class = "DROPPED"
 	case !o.ethTxEvent:
 		o.Class = "REJ"
+	case res.Codespace == "undefined" && res.Code == 111222:
+		// baseapp.runTx recovered a panic raised inside the message handler (errorsmod.ErrPanic): the ante handler's
+		// effects stay, the handler's are dropped, the gas meter shows whatever it held when the panic was raised
+		o.Class = "PANIC"
 	default:
 		o.Class = "FAILED"
 	}
@@ -1366,6 +1441,8 @@ func (o *obsTx) coq(codespace string) string {
 		out = fmt.Sprintf("(ORej %s)", CqZi(code))
 	case "FAILED":
 		out = "OFailed"
+	case "PANIC":
+		out = "OPanic"
 	default:
 		out = "OOther"
 	}
@@ -1417,12 +1494,13 @@ type snap struct {
 	base    *big.Int
 	gminDec *big.Int
 	allSup  sdk.Coins // total supply of every denomination
+	isMod   map[common.Address]bool // the account exists and is a module account
 	fbal    map[common.Address]coins // balances in the other denominations
 }
 
 func (w *world) snapshot(ctx sdk.Context, addrs []common.Address) *snap {
 	s := &snap{addrs: addrs, supply: w.c.Supply(ctx, w.c.Denom()), base: w.c.BaseFee(ctx), bal: map[common.Address]*big.Int{}, seq: map[common.Address]uint64{},
-		exists: map[common.Address]bool{}, code: map[common.Address]common.Hash{}, fbal: map[common.Address]coins{}}
+		exists: map[common.Address]bool{}, code: map[common.Address]common.Hash{}, fbal: map[common.Address]coins{}, isMod: map[common.Address]bool{}}
 	s.gminDec = w.c.App.FeeMarketKeeper.GetParams(ctx).MinGasPrice.BigInt()
 	w.c.App.BankKeeper.IterateTotalSupply(ctx, func(coin sdk.Coin) bool {
 		s.allSup = s.allSup.Add(coin)
@@ -1438,7 +1516,11 @@ func (w *world) snapshot(ctx sdk.Context, addrs []common.Address) *snap {
 		}
 		s.fbal[a] = f
 		s.seq[a] = w.c.Nonce(ctx, a)
-		s.exists[a] = w.c.App.AccountKeeper.GetAccount(ctx, sdk.AccAddress(a.Bytes())) != nil
+		acc := w.c.App.AccountKeeper.GetAccount(ctx, sdk.AccAddress(a.Bytes()))
+		s.exists[a] = acc != nil
+		if _, ok := acc.(sdk.ModuleAccountI); ok && acc != nil {
+			s.isMod[a] = true
+		}
 		ch := w.c.App.EvmKeeper.GetCodeHash(ctx, a.Bytes())
 		if !evmtypes.IsEmptyCodeHash(ch) {
 			s.code[a] = common.BytesToHash(ch.Bytes())
@@ -1605,7 +1687,15 @@ func TestDriverBlocks(t *testing.T) {
 				st.isK[a] = true
 			}
 		}
-		st.bal[fc] = big.NewInt(0) // x/distribution sweeps the fee collector at BeginBlock
+		st.bal[fc] = big.NewInt(0) // x/distribution sweeps the fee collector at BeginBlock ...
+		st.bal[w.distr] = new(big.Int).Add(pre.bal[w.distr], pre.bal[fc]) // ... into its own module account
+		for _, a := range w.mods {
+			st.blocked[a] = true
+			st.modNames[a] = w.modName[a]
+			if pre.isMod[a] {
+				st.isModAcc[a] = true
+			}
+		}
 		expSeq := map[common.Address]uint64{}
 		for _, a := range uni {
 			expSeq[a] = pre.seq[a]
@@ -1789,10 +1879,40 @@ func TestDriverBlocks(t *testing.T) {
 				}
 				expDelta[a].Add(expDelta[a], d)
 			}
-			switch o.Class {
+			// does the execution, run to its end, hit a module account in a way that aborts the transaction (value credited
+			// to a blocked address; touched empty module account at commit)?  Tried out on a copy of the reference state.
+			refPanic := ""
+			if o.Class == "EXEC_OK" || o.Class == "PANIC" {
+				tr := st.trial()
+				tr.add(g.from, new(big.Int).Neg(limitFee))
+				tr.add(fc, limitFee)
+				w.applyRef(tr, g)
+				refPanic = tr.panicked
+				if o.Class == "PANIC" {
+					for k, v := range tr.stats {
+						if strings.HasPrefix(k, "module-account-") {
+							side.Histogram["reached:"+k] += v
+						}
+					}
+				}
+			}
+			effClass := o.Class // the class whose accounting the reference follows
+			switch {
+			case o.Class == "EXEC_OK" && refPanic != "":
+				// the implementation executed what must abort: accounted as aborted, the flow oracles below show the difference
+				effClass = "PANIC"
+				side.Count("ref:panic-expected-but-executed:" + refPanic)
+			case o.Class == "PANIC" && refPanic == "":
+				side.Count("ref:panic-not-predicted") // the model is given an ordinary execution: it will disagree
+			case o.Class == "PANIC":
+				side.Count("panic:" + refPanic + ":" + g.Kind)
+				side.Count(fmt.Sprintf("panic:consensus-gas-used=%d", o.GU))
+			}
+			switch effClass {
 			case "EXEC_OK", "EXEC_VMERR":
 				fee := new(big.Int).Mul(g.price, big.NewInt(o.RGas))
-				st.add(g.from, new(big.Int).Neg(limitFee)) // the execution sees the sender after the ante deduction
+				st.add(g.from, new(big.Int).Neg(limitFee)) // the execution sees the sender after the ante deduction ...
+				st.add(fc, limitFee)                       // ... and the fee collector holding the fee for the whole limit
 				if !vmerr {
 					before := st.bal
 					st.bal = make(map[common.Address]*big.Int, len(before))
@@ -1843,11 +1963,11 @@ func TestDriverBlocks(t *testing.T) {
 					}
 				}
 				st.add(g.from, new(big.Int).Sub(limitFee, fee))
-				st.add(fc, fee)
+				st.add(fc, new(big.Int).Sub(fee, limitFee))
 				addExp(g.from, new(big.Int).Neg(fee))
 				addExp(fc, fee)
 				burnTotal.Add(burnTotal, burn)
-			case "FAILED":
+			case "FAILED", "PANIC":
 				st.add(g.from, new(big.Int).Neg(limitFee))
 				st.add(fc, limitFee)
 				addExp(g.from, new(big.Int).Neg(limitFee))
@@ -1898,7 +2018,31 @@ func TestDriverBlocks(t *testing.T) {
 				obBloom = cqZs(bloomBits(o.Bloom))
 			}
 			ext := fmt.Sprintf("(mkExt %s %s %s %s %s)", CqZi(w.id(crypto.CreateAddress(g.from, g.nonce))), CqList(lb), rfS, obCA, obBloom)
-			items = append(items, fmt.Sprintf("IEth %s %s %s %s (mkDx %s %s)", g.coqT, eo, o.coq(tr.Codespace), ext, CqList(createdCq), CqList(destroyedCq)))
+			if refPanic != "" {
+				// the model's part: TxPipeExt.deliver_panic, given the consensus gas used as observed
+				items = append(items, fmt.Sprintf("IEthPanic %s %s %s %s", g.coqT, CqZi(o.GU), o.coq(tr.Codespace), ext))
+			} else {
+				items = append(items, fmt.Sprintf("IEth %s %s %s %s (mkDx %s %s)", g.coqT, eo, o.coq(tr.Codespace), ext, CqList(createdCq), CqList(destroyedCq)))
+			}
+			for _, a := range g.addrs {
+				if w.isMod(a) {
+					side.Count("tx-naming-module-account:" + w.modName[a] + ":" + o.Class)
+				}
+			}
+			// C04, every transaction in every class: "the EVM module's own account always ends with a zero balance" (it starts
+			// every block with none, see the block-level oracle: the net of its bank events must be nothing, in every
+			// denomination) and "never creates coins" (mint events never exceed burn events, in every denomination)
+			if d := o.delta[w.evmModule]; d != nil && d.Sign() != 0 {
+				side.Hit("C04/blocks/evm-module-balance-nonzero", fmt.Sprintf("bank events of the transaction leave %s on the EVM module account", d), desc)
+			}
+			for _, dn := range sortedDenoms(o, nil) {
+				if d := o.fdelta[dn][w.evmModule]; d != nil && d.Sign() != 0 {
+					side.Hit("C04/blocks/evm-module-balance-nonzero", fmt.Sprintf("bank events of the transaction leave %s%s on the EVM module account", d, dn), desc)
+				}
+			}
+			if net.Sign() > 0 && o.Class != "EXEC_OK" && o.Class != "EXEC_VMERR" {
+				side.Hit("C04/blocks/tx-increases-supply", fmt.Sprintf("bank events of the tx (class %s): minted %s > burned %s", o.Class, o.minted, o.burned), desc)
+			}
 			// C04, every other denomination, every outcome class: the supply falls by exactly the balances of the accounts the
 			// execution explicitly destroyed, every other account (sender, fee collector, created contracts, ...) keeps its balance
 			checkOther(o, expF, "C04/blocks/", desc)
@@ -1926,7 +2070,7 @@ func TestDriverBlocks(t *testing.T) {
 					msg := fmt.Sprintf("account %s: bank events net %s, expected %s", a.Hex(), got, want)
 					switch a {
 					case g.from:
-						if o.Class == "FAILED" {
+						if o.Class == "FAILED" || o.Class == "PANIC" {
 							side.Hit("C05/blocks/failed-tx-not-charged-full-limit", msg, desc)
 						} else {
 							side.Hit("C05/blocks/sender-charge-not-exact", msg, desc)
@@ -2035,6 +2179,26 @@ func TestDriverBlocks(t *testing.T) {
 					side.Hit("C13/blocks/tx-index-not-consecutive", fmt.Sprintf("txIndex %d, expected %d", o.TxIdx, idxExpected), desc)
 				}
 				idxExpected++
+			case "PANIC":
+				// aborted by a panic inside the handler (value credited to a module account, touched empty module account):
+				// a failure outside EVM execution, after admission - the fee for the whole gas limit is kept, nothing else
+				// moves, no coin is created or destroyed; the transaction owns an Ethereum index and has no receipt.  The
+				// consensus gas used is whatever the meter held (handed to the model as observed; C05 speaks about the gas
+				// used "as shown by its Ethereum receipt": the later receipts' cumulative gas count the whole limit for it,
+				// which the running sum below requires)
+				checkFlows()
+				if net.Sign() != 0 {
+					side.Hit("C04/blocks/failed-tx-changes-supply", fmt.Sprintf("minted %s burned %s", o.minted, o.burned), desc)
+				}
+				if o.GW != int64(g.limit) {
+					side.Hit("C05/blocks/gas-wanted-not-limit", fmt.Sprintf("gas wanted %d, limit %d", o.GW, g.limit), desc)
+				}
+				failedSeen = true
+				cumExpected += int64(g.limit)
+				if o.TxIdx != idxExpected {
+					side.Hit("C13/blocks/tx-index-not-consecutive", fmt.Sprintf("txIndex %d, expected %d", o.TxIdx, idxExpected), desc)
+				}
+				idxExpected++
 			case "REJ", "DROPPED":
 				if len(o.delta) != 0 || o.minted.Sign() != 0 || o.burned.Sign() != 0 {
 					side.Hit("C05/blocks/rejected-tx-moves-coins", "a rejected transaction has bank events", desc)
@@ -2053,7 +2217,13 @@ func TestDriverBlocks(t *testing.T) {
 				if len(w.accepted) > 48 {
 					w.accepted = w.accepted[1:]
 				}
-				if o.Class == "FAILED" || o.Class == "EXEC_VMERR" {
+				if refPanic != "" {
+					w.abortedAcc = append(w.abortedAcc, &cp)
+					if len(w.abortedAcc) > 6 {
+						w.abortedAcc = w.abortedAcc[1:]
+					}
+				}
+				if o.Class == "FAILED" || o.Class == "EXEC_VMERR" || o.Class == "PANIC" || refPanic != "" {
 					w.failedAcc = append(w.failedAcc, &cp)
 					if len(w.failedAcc) > 24 {
 						w.failedAcc = w.failedAcc[1:]
@@ -2176,7 +2346,7 @@ func TestDriverBlocks(t *testing.T) {
 		{ // accounts that hold other denominations only
 			for _, a := range uni {
 				_, hasCode := post.code[a]
-				if !post.fbal[a].isZero() && post.bal[a].Sign() == 0 && !hasCode && post.seq[a] == 0 && !w.eoa[a] && a != fc && a != w.evmModule && !containsAddr(w.foreignOnly, a) {
+				if !post.fbal[a].isZero() && post.bal[a].Sign() == 0 && !hasCode && post.seq[a] == 0 && !w.eoa[a] && !w.isMod(a) && !containsAddr(w.foreignOnly, a) {
 					w.foreignOnly = append(w.foreignOnly, a)
 				}
 			}
@@ -2232,7 +2402,7 @@ func TestDriverBlocks(t *testing.T) {
 			}
 			side.Count(fmt.Sprintf("K-alive:%d", min(alive, 6)))
 		}
-		item := fmt.Sprintf("(mkBlock %s %s %s %s %s %s %s)", w.snapCoq(pre, false), CqZi(w.maxGas), CqList(items), w.snapCoq(post, true), obsBlockBloom, w.dsnapCoq(pre, false), w.dsnapCoq(post, true))
+		item := fmt.Sprintf("(mkBlock %s %s %s %s %s %s %s %s)", w.snapCoq(pre, false), CqZi(w.maxGas), CqList(items), w.snapCoq(post, true), obsBlockBloom, w.dsnapCoq(pre, false), w.dsnapCoq(post, true), w.cqID(w.distr))
 		cases.Add(item)
 		sorted := append([]string{}, obsStr...)
 		sort.Strings(sorted)
@@ -2277,7 +2447,7 @@ func (w *world) addrClass(a common.Address, pre *snap) string {
 	switch {
 	case w.eoa[a]:
 		return "wallet"
-	case a == feeCollector() || a == w.evmModule:
+	case w.isMod(a):
 		return "module-account"
 	case pre.code[a] == w.kHash:
 		return "K-alive"
